@@ -170,6 +170,29 @@ def r121(facts, res, cone, cg):
             else:
                 res.bad(R, key, loc_of(b, h), 'no termination evidence: ' + detail, {'function': b.path, 'header': h})
     res.floor(R, 'natural loops in the scanner modules of the cone', n, 32)
+    # R12.4 constant cursor steps only past characters proven ASCII
+    R4 = 'R12.4'
+    nsteps = 0
+    nloops4 = 0
+    for path in sorted(cone):
+        if not in_scanner(path):
+            continue
+        b = cg.bodies[path]
+        if b.from_expansion:
+            continue
+        for i, h in enumerate(sorted(b.loops())):
+            m, bad = pr.const_steps(b, h)
+            nsteps += m
+            nloops4 += 1 if m else 0
+            key = '%s/loop@%d' % (strip_generics(b.path), i)
+            if bad:
+                cur, k, na, p = bad[0]
+                res.bad(R4, key, loc_of(b, h), 'cursor `%s` is advanced by the constant %d after reading a character at it, but only %d character(s) on that '
+                        'cycle are matched against ASCII literals: a multi-byte character accepted by the test leaves the cursor inside '
+                        'it and the next slice panics (cycle through blocks %s)' % (cur, k, na, p.blocks[:14]), {'function': b.path})
+            elif m:
+                res.ok(R4, key, loc_of(b, h), '%d constant-step cycle(s), each past characters matched against ASCII literals' % m)
+    res.floor(R4, 'loops with constant-step cycles that read the text at the cursor', nloops4, 2)
     for k, v in kinds.items():
         res.count('R12.1 evidence ' + k, v)
     for k, v in sorted(pr.trust_used.items()):
